@@ -105,6 +105,8 @@ def call(ex, node, name, st):
         return S.as_int(ex.need_int(A(i), st, node))
 
     nargs = len(node.args)
+    if name in ("builtins.max", "builtins.min", "builtins.sum", "builtins.any", "builtins.all", "builtins.abs"):
+        name = name.split(".", 1)[1]
     if name == "isinstance":
         return BoolV(isinstance_(ex, A(0), type_names(ex, node.args[1])))
     if name == "len":
@@ -242,6 +244,20 @@ def call(ex, node, name, st):
         raise E.Unsupported(f"product of {len(facs)} factors")
     if name == "set" and nargs == 0:
         return ("sset", ())  # an empty set that is only ever extended with .add(x) and tested with `in`: a finite list
+    if name in ("partition_all", "toolz.partition_all", "tlz.partition_all") and nargs == 2:
+        # partition_all(k, seq): consecutive groups of k items, the last one possibly shorter: ceil(len/k) groups
+        k = AI(0)
+        ex.oblige(st, "safe", "partition-size-positive", k >= 1, node.lineno, note="partition_all needs a positive group size")
+        v = A(1)
+        if isinstance(v, SeqV):
+            n = S.f_len(v.t)
+        elif isinstance(v, TupV):
+            n = z3.IntVal(len(v.items))
+        elif isinstance(v, tuple) and v and v[0] == "range":
+            n = S.rlen(v[1], v[2], v[3])
+        else:
+            raise E.Unsupported(f"partition_all of {v!r}")
+        return ("parts", k, n)
     if name in ("toolz.partition", "partition") and nargs == 2:
         # toolz.partition(n, seq) on a fixed-length sequence: consecutive n-tuples (a trailing remainder is dropped)
         nv = z3.simplify(AI(0))
